@@ -249,12 +249,16 @@ class Vector(Base):
     def _wrap_numpy(self, func, *args, **kwargs):
         if isinstance(args[0], (tuple, list)):
             # Case where we have a sequence of vectors, e.g. `concatenate`
+            if any(a.nvec != args[0][0].nvec for a in args[0]):
+                raise ValueError("Operands do not have the same number of components.")
             out = {
                 c: func(tuple(getattr(a, c) for a in args[0]), *args[1:], **kwargs)
                 for c, xyz in args[0][0]._xyz.items()
             }
         elif len(args) > 1 and isinstance(args[1], self.__class__):
             # Case of a binary operation, with two vectors, e.g. `dot`
+            if args[0].nvec != args[1].nvec:
+                raise ValueError("Operands do not have the same number of components.")
             out = {
                 c: func(xyz, getattr(args[1], c), *args[2:], **kwargs)
                 for c, xyz in args[0]._xyz.items()
